@@ -257,6 +257,39 @@ def overlap_case(seed, model, rep):
         repo.done()
 
 
+def nested_case(seed, model, rep):
+    """a command executed by `run` calls back into monorail on the same repository (and leaves a
+    straggler behind): the nested mutating invocation is a contender like any other"""
+    rng = scen.Rng(seed)
+    repo = setup()
+    api = rng.pick(["ckupdate", "ckdelete", "outdelete", "run"])
+    case = {"seed": seed, "mode": "nested", "nested": api}
+    try:
+        before = protected_state(repo)
+        repo.set_plan({"slow|app": {"sleep_ms": 100, "spawn": [scen.MONORAIL, "-f", repo.cfg_path] + APIS[api]}, "slow|lib": {"sleep_ms": 50}})
+        repo.clear_traces()
+        rc, j, out, err = repo.mono("run", "-c", "slow", "-t", "app", "lib", timeout=120)
+        rep.evaluations += 1
+        rep.count("nested_cases")
+        tr = [t for t in repo.traces() if t["command"] == "slow" and t["target"] == "app"]
+        sp = (tr[0].get("spawned") if tr else None) or {}
+        if rc != 0 or not tr or sp.get("rc") is None and not sp.get("stderr"):
+            rep.count("nested_inconclusive")
+            return
+        if sp.get("rc") == 0 or not is_lock_error(sp.get("stderr", "")):
+            rep.oracle_fail({"kind": "an invocation that tried to acquire while another held the lock did not fail with the lock error",
+                             "case": case, "contender": "%s started by a command of the running `run`" % api, "rc": sp.get("rc"),
+                             "stderr": sp.get("stderr", "")[-300:]})
+            return
+        started = [t for t in repo.traces() if t["command"] == "work"]
+        if started:
+            rep.oracle_fail({"kind": "a losing run started an executable", "case": case, "started": [t["target"] for t in started]})
+            return
+        rep.nontrivial_case(case)
+    finally:
+        repo.done()
+
+
 def port_listening(port):
     want = ":%04X" % port
     try:
@@ -329,7 +362,9 @@ def main():
         cases.append(("storm", rng.next()))
     if args["budget"] > 0:
         cases.append(("defaultport", rng.next()))
-    fn = {"hold": hold_case, "storm": storm_case, "overlap": overlap_case, "defaultport": defaultport_case}
+        for _ in range((12 if args["tier"] == "thorough" else 3) * args["budget"]):
+            cases.append(("nested", rng.next()))
+    fn = {"hold": hold_case, "storm": storm_case, "overlap": overlap_case, "defaultport": defaultport_case, "nested": nested_case}
     scen.run_cases(lambda c: fn[c[0]](c[1], model, rep), cases, rep, 6)
     scen.finish(args, rep, t0, model)
 
